@@ -439,6 +439,13 @@ func (s *sched) enabled(t *Task) bool {
 	return false
 }
 
+func btoi(b bool) int {
+	if b {
+		return 1
+	}
+	return 0
+}
+
 //go:norace
 func (s *sched) rwOf(p unsafe.Pointer) *rwState {
 	if s.rws == nil {
@@ -696,6 +703,19 @@ func (s *sched) loop() {
 			}
 			s.mix(int64(t.ID), 103)
 			s.cont(t, wakeMsg{})
+			continue
+		case rqTryLock:
+			h := s.mus[r.ptr]
+			if h == nil {
+				h = new(bool)
+				s.mus[r.ptr] = h
+			}
+			got := !*h
+			if got {
+				*h = true
+			}
+			s.mix(int64(t.ID), 109, int64(btoi(got)))
+			s.cont(t, wakeMsg{ok: got})
 			continue
 		case rqRWUnlock:
 			s.rwOf(r.ptr).writer = false
